@@ -886,6 +886,9 @@ func (u *Unit) appendOp(s *State, c *ssa.CallCommon, instr *ssa.Call) {
 		res.T = instr.Type()
 		r := u.define(s, "appended", res)
 		s.regs[instr] = r
+		if s.isFreshSlice(sl.S) {
+			s.freshSl[r.S] = true // appending to a slice we allocated gives a slice we allocated
+		}
 		// slice-invariant hook
 		u.sliceInvAppend(s, c, instr, elems, known)
 	}
